@@ -19,9 +19,9 @@ import (
 // ---- reconcile / sync between two real repositories: C15 -------------------
 
 type rEntry struct {
-	U   int    `json:"u"`
-	K   string `json:"k"`
-	Ref string `json:"ref"`
+	U    int    `json:"u"`
+	K    string `json:"k"`
+	Ref  string `json:"ref"`
 	T    int    `json:"t"`
 	Tg   []int  `json:"tg"`
 	Skip bool   `json:"skip"`
@@ -38,8 +38,8 @@ type rScn struct {
 }
 
 type rMean struct {
-	K   string `json:"k"`
-	Ref string `json:"ref"`
+	K    string `json:"k"`
+	Ref  string `json:"ref"`
 	T    int    `json:"t"`  // identity of the commit named (the u of the entry that first recorded it); -1 unknown
 	Tg   []int  `json:"tg"` // positions referred to (0: not in the log)
 	Skip bool   `json:"skip"`
